@@ -101,13 +101,58 @@ Proof.
     rewrite Hh in A. cbn. rsplit; auto. congruence.
 Qed.
 
+Lemma t_update_client_ranges x y now ip d ttl t : same_ranges x y -> t_update_client x now ip d ttl t = t_update_client y now ip d ttl t.
+Proof. intros S. unfold t_update_client. rewrite (to_uip_ranges x y ip S). reflexivity. Qed.
+
+Lemma t_hold_client_ranges x y now ip d ttl t : same_ranges x y -> t_hold_client x now ip d ttl t = t_hold_client y now ip d ttl t.
+Proof. intros S. unfold t_hold_client. rewrite (to_uip_ranges x y ip S), (t_update_client_ranges x y now ip d ttl t S). reflexivity. Qed.
+
+Lemma hold_client_refines now ip d ttl x ok x' :
+  Rep now (st x) -> hold_client now ip d ttl x = (ok, x') ->
+  (ok, heap (st x')) = t_hold_client x now ip d ttl (heap (st x)) /\ Rep now (st x') /\ same_ranges x' x.
+Proof.
+  intros HR H. unfold hold_client, t_hold_client in *.
+  destruct (to_uip x ip) as [n|] eqn:Eu; [|injection H as <- <-; rsplit; auto].
+  destruct (lookup now n d (st x)) as [[r1 r2] s1] eqn:El.
+  destruct (lookup_refines _ _ _ _ _ _ _ HR El) as (Ht & Hh & HR1 & _). rewrite <- Ht.
+  assert (Hupd : forall ok0 x0, update_client now ip d ttl (with_store x s1) = (ok0, x0) ->
+            (ok0, heap (st x0)) = t_update_client x now ip d ttl (heap (st x)) /\ Rep now (st x0) /\ same_ranges x0 x).
+  { intros ok0 x0 E. destruct (update_client_refines now ip d ttl (with_store x s1) ok0 x0 HR1 E) as (T & R & S).
+    cbn [st with_store] in T. rewrite Hh in T.
+    rewrite (t_update_client_ranges _ x _ _ _ _ _ (same_ranges_with_store x s1)) in T.
+    rsplit; auto. }
+  destruct r1 as [p|]; [|apply Hupd; exact H].
+  destruct r2 as [q|]; [|apply Hupd; exact H].
+  destruct (Nat.eqb p q); [|apply Hupd; exact H].
+  replace (nth_error (heap (st x)) p) with (nth_error (heap s1) p) by (rewrite Hh; reflexivity).
+  destruct (nth_error (heap s1) p) as [e|]; [|apply Hupd; exact H].
+  destruct (now + ttl <? e_until e)%Z; [|apply Hupd; exact H].
+  injection H as <- <-. cbn. rewrite Hh. rsplit; auto.
+Qed.
+
+Lemma offer_ip_refines perm cancelled probe now sugg d ttl x r x' now' :
+  (forall a, (0 <= snd (probe a))%Z) -> Rep now (st x) ->
+  offer_ip perm cancelled probe now sugg d ttl x = (r, x', now') ->
+  (r, heap (st x'), now') = t_offer_ip x perm cancelled probe now sugg d ttl (heap (st x)) /\
+  Rep now' (st x') /\ same_ranges x' x /\ (now <= now')%Z.
+Proof.
+  intros Hp HR H. unfold offer_ip, t_offer_ip in *.
+  destruct (find_ip perm cancelled probe now sugg d x) as [[r0 x1] t1] eqn:Ef.
+  destruct (find_ip_refines _ _ _ _ _ _ _ _ _ _ Hp HR Ef) as (T & Hh & R1 & S1 & L). rewrite <- T.
+  destruct r0 as [a|]; [|injection H as <- <- <-; rewrite Hh; rsplit; auto].
+  destruct (hold_client t1 (Some a) d ttl x1) as [ok x2] eqn:Eh. injection H as <- <- <-.
+  destruct (hold_client_refines _ _ _ _ _ _ _ R1 Eh) as (T2 & R2 & S2).
+  rewrite Hh in T2. rewrite (t_hold_client_ranges x1 x _ _ _ _ _ S1) in T2. rewrite <- T2.
+  rsplit; auto. destruct S1 as (A1 & B1 & C1 & D1), S2 as (A2 & B2 & C2 & D2). unfold same_ranges. rsplit; congruence.
+Qed.
+
 (* ---------- one step, then whole histories ---------- *)
 
 Lemma c_step_refines x now op res x' now' :
   probe_nonneg op -> Rep now (st x) -> c_step x now op = (res, x', now') ->
   t_step x (heap (st x)) now op = (res, heap (st x'), now') /\ Rep now' (st x') /\ same_ranges x' x /\ (now <= now')%Z.
 Proof.
-  intros Hp HR H. destruct op as [ip d ttl|d|ip d|perm c pr sg d]; cbn [c_step t_step] in *.
+  intros Hp HR H. destruct op as [ip d ttl|d|ip d|perm c pr sg d|ip d ttl|perm c pr sg d ttl]; cbn [c_step t_step] in *.
   - destruct (update_client now ip d ttl x) as [ok x1] eqn:E. injection H as <- <- <-.
     destruct (update_client_refines _ _ _ _ _ _ _ HR E) as (T & R & S). rewrite <- T. rsplit; auto; try apply S. lia.
   - destruct (lookup_by_duid now d x) as [r x1] eqn:E. injection H as <- <- <-.
@@ -116,23 +161,37 @@ Proof.
     destruct (add_permanent_refines _ _ _ _ _ _ HR E) as (T & R & S). rewrite <- T. rsplit; auto; try apply S. lia.
   - destruct (find_ip perm c pr now sg d x) as [[r x1] n1] eqn:E. injection H as <- <- <-.
     destruct (find_ip_refines _ _ _ _ _ _ _ _ _ _ Hp HR E) as (T & Hh & R & S & L). rewrite <- T, Hh. rsplit; auto; apply S.
+  - destruct (hold_client now ip d ttl x) as [ok x1] eqn:E. injection H as <- <- <-.
+    destruct (hold_client_refines _ _ _ _ _ _ _ HR E) as (T & R & S). rewrite <- T. rsplit; auto; try apply S. lia.
+  - destruct (offer_ip perm c pr now sg d ttl x) as [[r x1] n1] eqn:E. injection H as <- <- <-.
+    destruct (offer_ip_refines _ _ _ _ _ _ _ _ _ _ _ Hp HR E) as (T & R & S & L). rewrite <- T. rsplit; auto; apply S.
+Qed.
+
+Lemma t_find_ip_ranges x y perm c pr now sg d t : same_ranges x y -> t_find_ip x perm c pr now sg d t = t_find_ip y perm c pr now sg d t.
+Proof.
+  intros S. pose proof S as (A & B & C & D).
+  unfold t_find_ip, dynamic_disabled. rewrite (to_uip_ranges x y sg S), C, D.
+  assert (forall cands i now0, t_search cands i c pr now0 x t = t_search cands i c pr now0 y t) as Hs.
+  { induction cands as [|v cands IH]; intros i now0; cbn [t_search]; [reflexivity|]. rewrite C.
+    destruct (c i); [reflexivity|]. destruct (find_live now0 (KIp (u32 (dyn_from y + v))) t 0); [apply IH|].
+    destruct (uip_valid (u32 (dyn_from y + v))); [|apply IH].
+    destruct (pr (u32 (dyn_from y + v))) as [free dt]. destruct free; [reflexivity|apply IH]. }
+  destruct (bound_ip now d t); [reflexivity|]. destruct ((dyn_to y =? 0) && (dyn_from y =? 0)); [reflexivity|].
+  rewrite Hs. reflexivity.
 Qed.
 
 Lemma t_step_ranges x y t now op : same_ranges x y -> t_step x t now op = t_step y t now op.
 Proof.
   intros S. pose proof S as (A & B & C & D).
-  destruct op as [ip d ttl|d|ip d|perm c pr sg d]; cbn [t_step].
+  destruct op as [ip d ttl|d|ip d|perm c pr sg d|ip d ttl|perm c pr sg d ttl]; cbn [t_step].
   - unfold t_update_client. rewrite (to_uip_ranges x y ip S). reflexivity.
   - reflexivity.
   - unfold t_add_permanent. rewrite (to_uip_ranges x y ip S). reflexivity.
-  - unfold t_find_ip, dynamic_disabled. rewrite (to_uip_ranges x y sg S), C, D.
-    assert (forall cands i now0, t_search cands i c pr now0 x t = t_search cands i c pr now0 y t) as Hs.
-    { induction cands as [|v cands IH]; intros i now0; cbn [t_search]; [reflexivity|]. rewrite C.
-      destruct (c i); [reflexivity|]. destruct (find_live now0 (KIp (u32 (dyn_from y + v))) t 0); [apply IH|].
-      destruct (uip_valid (u32 (dyn_from y + v))); [|apply IH].
-      destruct (pr (u32 (dyn_from y + v))) as [free dt]. destruct free; [reflexivity|apply IH]. }
-    destruct (bound_ip now d t); [reflexivity|]. destruct ((dyn_to y =? 0) && (dyn_from y =? 0)); [reflexivity|].
-    rewrite Hs. reflexivity.
+  - rewrite (t_find_ip_ranges x y _ _ _ _ _ _ _ S). reflexivity.
+  - rewrite (t_hold_client_ranges x y _ _ _ _ _ S). reflexivity.
+  - unfold t_offer_ip. rewrite (t_find_ip_ranges x y _ _ _ _ _ _ _ S).
+    destruct (t_find_ip y perm c pr now sg d t) as [r n1]. destruct r; [|reflexivity].
+    rewrite (t_hold_client_ranges x y _ _ _ _ _ S). reflexivity.
 Qed.
 
 Lemma t_run_ranges h : forall x y t now, same_ranges x y -> t_run x t now h = t_run y t now h.
